@@ -4,6 +4,7 @@ package main
 
 import (
 	"crypto/sha256"
+	"encoding/json"
 	"fmt"
 	"math/rand"
 	"strings"
@@ -284,7 +285,11 @@ func genC04(seed int64, tier string) []caseOut {
 				}
 			}
 			cfg := base
-			b := d.buildOp(typ, "", uint64(1000+j), &cfg)
+			mut := ""
+			if typ == "deactivate" && r.Intn(2) == 0 {
+				mut = "extra_signed_commitments" // members the deactivate model does not have: still a deactivate, still no next commitment
+			}
+			b := d.buildOp(typ, mut, uint64(1000+j), &cfg)
 			switch typ {
 			case "create":
 				// the create request's commitments are read from the request itself
@@ -313,6 +318,56 @@ func genC04(seed int64, tier string) []caseOut {
 			Coq:    fmt.Sprintf("(mk_c04chain %s)", cList(links)),
 			Rec:    map[string]interface{}{"algorithms": algs, "chain_code": code, "chain": recs},
 			Label:  fmt.Sprintf("chain:%s,algs-%v,code-%d", kinds[0], algs, code),
+			NonTri: fmt.Sprintf("%x", hh[:8]),
+		})
+	}
+	// chains built by the library's own client and builders, incl. a client that switches to the
+	// other configured hash algorithm after the create
+	for _, idx := range []int{10, 0, 3, 24, 5} {
+		lifecycleCase(r, idx)
+		p := operationparser.New(lastLifeCfg)
+		var links []string
+		var recs []interface{}
+		var lastUpdC, lastRecC string
+		complete := true
+		for _, st := range lastLifeSteps {
+			if st.bytes == nil {
+				complete = false
+				break
+			}
+			if st.typ == "create" {
+				var req M
+				json.Unmarshal(st.bytes, &req)
+				lastRecC, _ = req["suffixData"].(map[string]interface{})["recoveryCommitment"].(string)
+				lastUpdC, _ = req["delta"].(map[string]interface{})["updateCommitment"].(string)
+				continue
+			}
+			rv, rerr := p.GetRevealValue(st.bytes)
+			nc, nerr := p.GetCommitment(st.bytes)
+			pred := lastUpdC
+			if st.typ != "update" {
+				pred = lastRecC
+			}
+			links = append(links, fmt.Sprintf("(mk_link %s %s %s %s)", cStr(st.typ), optStr(rv, rerr), optStr(nc, nerr), cStr(pred)))
+			recs = append(recs, map[string]interface{}{"type": st.typ, "request": string(st.bytes), "reveal": rv, "next_commitment": nc, "predecessor_commitment": pred})
+			switch st.typ {
+			case "update":
+				lastUpdC = nc
+			case "recover":
+				lastRecC = nc
+				var req M
+				json.Unmarshal(st.bytes, &req)
+				lastUpdC, _ = req["delta"].(map[string]interface{})["updateCommitment"].(string)
+			}
+		}
+		if !complete || len(links) == 0 {
+			continue
+		}
+		hh := sha256.Sum256([]byte(fmt.Sprint(recs)))
+		out = append(out, caseOut{
+			Coq:    fmt.Sprintf("(mk_c04chain %s)", cList(links)),
+			Rec:    map[string]interface{}{"algorithms": lastLifeCfg.MultihashAlgorithms, "built_by": "library client / builders", "chain": recs},
+			Label:  fmt.Sprintf("client-chain:%d,algs-%v", idx, lastLifeCfg.MultihashAlgorithms),
 			NonTri: fmt.Sprintf("%x", hh[:8]),
 		})
 	}
